@@ -203,6 +203,10 @@ func (x *Exec) modOfContract(m *ModSet, ci *calleeInfo, c *ssa.CallCommon) {
 	m.Ctr = true
 	names, typs := x.paramTypes(ci, c)
 	for _, d := range ct.Modifies {
+		if d == "everything" {
+			m.All = true
+			continue
+		}
 		if rec, ok := x.sp.Records[d]; ok {
 			for _, f := range rec.Fields {
 				m.Ghosts[d+"."+f.Name] = true
@@ -402,6 +406,19 @@ func (x *Exec) doCall(fr *Frame, in ssa.Value, c *ssa.CallCommon, reach *Term, s
 	ms.All = true
 	old := st.clone()
 	x.havoc(fr, st, old, ms, reach, "unmodelled call "+ci.key)
+	if ci.fn == nil && !ci.invoke && ci.builtin == "" && x.isGhost("DYNCALL.n") {
+		// a call through a function value: its effects are unknown (everything was havocked) but the
+		// invocation itself is recorded in the ghost log DYNCALL
+		n := x.hp.ghostGet(old, "DYNCALL.n")
+		callee := x.get(fr, c.Value)
+		st.ghost["DYNCALL.fn"] = x.vc.name("G.DYNCALL.fn", mkStore(x.hp.ghostGet(old, "DYNCALL.fn"), n, callee.term()))
+		var arg *Term = mkInt64(0)
+		if len(args) > 0 && args[0].LV == nil && len(args[0].L) == 1 && args[0].L[0].Sort == SInt {
+			arg = args[0].L[0]
+		}
+		st.ghost["DYNCALL.arg"] = x.vc.name("G.DYNCALL.arg", mkStore(x.hp.ghostGet(old, "DYNCALL.arg"), n, arg))
+		st.ghost["DYNCALL.n"] = x.vc.name("G.DYNCALL.n", bvBin("bvadd", n, mkBVu(1, 64)))
+	}
 	var res []*Sym
 	rt := c.Signature().Results()
 	for i := 0; i < rt.Len(); i++ {
@@ -501,6 +518,12 @@ func (x *Exec) applyContract(fr *Frame, ci *calleeInfo, c *ssa.CallCommon, args 
 		st.ctr = nc
 	}
 	for _, d := range ct.Modifies {
+		if d == "everything" {
+			ms := newModSet()
+			ms.All = true
+			x.havoc(fr, st, pre, ms, reach, "call of "+ct.Key+" (modifies everything)")
+			continue
+		}
 		x.havocDesignator(env, d, st, reach, c, names, ci.invoke)
 	}
 	// results
